@@ -234,8 +234,8 @@ def check_rot3(o):
     e = np.eye(3)
     if not L.close(r.apply(e[ax][None]), e[ax][None], 1e-12):
         bad.append(("rotation axis is not fixed", {}, None))
-    half_turn = L.fl(c["cs"][0]) == -1.0
-    if not half_turn:
+    half_turn_or_identity = abs(L.fl(c["cs"][0])) == 1.0   # excluded by the property for the 3-D axis/angle clause
+    if not half_turn_or_identity:
         np.random.seed(0)
         axis, ang = Rotation(M[:3, :3]).axis_and_angle_of_rotation()
         if axis is None:
